@@ -125,6 +125,20 @@ def run(chk: Check) -> None:
             fr = gen.gen_schema_frame(rnd, pairs, extreme=rnd.random() < 0.3)
         if fr:
             frames.append(fr)
+    # every temperature-bearing code at the ends of the 16-bit word: sentinels, the sign boundary, absolute zero
+    WORDS = ("0000", "0001", "7FFE", "7FFF", "7EFF", "7EFE", "8000", "8001", "954D", "954E", "954C", "FFFF", "31FF", "3200", "09F6", "FF9C")
+    for w in WORDS:
+        for fr in (f" I --- 01:145038 --:------ 01:145038 30C9 003 00{w}", f" I --- 04:111111 --:------ 04:111111 30C9 003 00{w}",
+                   f" I --- 01:145038 --:------ 01:145038 30C9 006 00{w}01{w}", f" I --- 01:145038 --:------ 01:145038 2309 003 02{w}",
+                   f"RP --- 01:145038 18:006402 --:------ 2309 003 02{w}", f" I --- 07:045960 --:------ 07:045960 1260 003 00{w}",
+                   f"RP --- 01:145038 18:006402 --:------ 10A0 006 00{w}00{w}", f"RP --- 10:067219 18:006402 --:------ 3200 003 00{w}",
+                   f"RP --- 10:067219 18:006402 --:------ 3210 003 00{w}", f"RP --- 10:067219 18:006402 --:------ 22D9 003 00{w}",
+                   f"RP --- 10:067219 18:006402 --:------ 1300 003 00{w}", f"RP --- 10:067219 18:006402 --:------ 12F0 003 00{w}",
+                   f"RP --- 10:067219 18:006402 --:------ 1290 003 00{w}", f" I --- 32:155617 --:------ 32:155617 1290 003 00{w}",
+                   f"RP --- 01:145038 18:006402 --:------ 000A 006 0110{w}{w}", f"RP --- 01:145038 18:006402 --:------ 2349 007 01{w}00FFFFFF",
+                   f" I --- 17:005567 --:------ 17:005567 0002 004 00{w}01", f"RP --- 13:237335 18:006402 --:------ 1100 008 00180400007FFF01"[:57] + f"{w}01",
+                   f" I --- 01:145038 --:------ 01:145038 2249 007 00{w}{w}0000", f" I --- 02:044328 --:------ 02:044328 22C9 006 00{w}{w}01"):
+            frames.append(fr)
     # arrays of 1..8 elements, from the proper senders and from others
     elems_of: dict = {}
     for code, el in ARRAY_CODES.items():
